@@ -307,7 +307,21 @@ def c07(ctx):
     corpus_validate(ctx, scripts, "c07tests")
 
 
+def c16(ctx):
+    ctx.rule = ("the full matrix: 15 binary operators x 8 x 8 value kinds (null, bool, int, string, list, object, "
+                "user function, builtin) in plain form, + - * / % also in op-assign form on variable / element / "
+                "property; 23 typed contexts x 8 kinds; thorough: the same inside a function. Every cell is "
+                "non-trivial (each exercises one entry of the type table); distinct = distinct cells")
+    out = ctx.run_model("MC_C16", "C16Params" if ctx.quick else "C16ParamsThorough")
+    ctx.notes.append("ASSUME TypeTable / TypeNamesOk (operator domain = the table of the property statement; "
+                     "diagnostics name operator and both type names in order) checked by TLC at start-up")
+    ctx.replay(out, "c16", seeds=(None,) if ctx.quick else (None, ctx.seed, ctx.seed + 1))
+    scripts = [s for s in repo_test_scripts() if "runtime_errors" in s[0] or "operations" in s[0]]
+    corpus_validate(ctx, scripts, "c16tests")
+
+
 REGISTRY = {
+    "C16": c16,
     "C07": c07,
 }
 
